@@ -8,7 +8,7 @@ import astropy.units as u
 import dask.array as da
 import pulsarbat as pb
 
-from .. import exact, gen, probes, monitors, dsp, refdft
+from .. import exact, gen, probes, monitors, dsp, refdft, oracles
 
 from ..replay import wl_R
 
@@ -117,11 +117,12 @@ class TimeShiftMonitor:
             if np.any(amb_elem):
                 ctx.count("ambiguous[crop_boundary]")
                 return
-            sl = slice(start, N + stop)
-            b, e, _ = sl.indices(N)
+            b, e = oracles.kept_range(start, N + stop, N)
+            sl = slice(b, e)
+            feats = dict(feats, beyond_length=bool(N + stop < 0))
             ref_c, zero_c = ref[sl], zero[sl]
             if y.shape != ref_c.shape:
-                ctx.violation(o, f"cropped result has shape {y.shape}, expected {ref_c.shape} = uncropped[{start}:{N + stop}]",
+                ctx.violation(o, f"cropped result has shape {y.shape}, expected {ref_c.shape} = uncropped samples [{b}, {e}) (edge samples: first {start}, last {-stop})",
                               {"shift": np.asarray(sh).tolist() if np.size(sh) < 9 else str(np.shape(sh))}, dict(feats, what="crop_shape"))
                 return
             # start time per C01
